@@ -44,9 +44,9 @@ def main(repo, outdir):
         pars = [["vol", "Ang^3", 100000.0, [0, float("inf")], "volume", "total volume"],
                 ["eccentricity", "", 2.0, [0, float("inf")], "volume", "length/diameter"]]
         translation = """
-            shape = eccentricity/2
-            radius = cbrt(vol/(M_PI*2*shape*2))
-            length = 2*shape*2*radius
+            shape = eccentricity*2
+            radius = cbrt(vol/(M_PI*shape))
+            length = shape*cbrt(vol/(M_PI*shape))
             """
         info = core.reparameterize(base, pars, translation, name="reparam_witness",
                                    insert_after={"": "vol,eccentricity"})
